@@ -192,6 +192,9 @@ func mutateTerm(t *rapid.T, cfg termCfg, a *term) *term {
 	for _, c := range a.Children {
 		b.Children = append(b.Children, c)
 	}
+	if a.Kind == tLabelSelector && !a.Sel.Nil && rapid.IntRange(0, 2).Draw(t, "selmut") > 0 {
+		return mutateSelector(t, a)
+	}
 	switch rapid.IntRange(0, 9).Draw(t, "mut") {
 	case 0, 1: // rebuilt identical
 		return cloneTerm(a)
@@ -254,4 +257,61 @@ func permuteTerm(t *rapid.T, a *term) {
 	case len(a.Children) > 0:
 		permuteTerm(t, a.Children[rapid.IntRange(0, len(a.Children)-1).Draw(t, "pc")])
 	}
+}
+
+// mutateSelector: a label selector that differs from a in one small way — a
+// value added to or removed from one requirement, the values permuted, the
+// operator changed, a requirement or a matchLabels entry added or removed.
+func mutateSelector(t *rapid.T, a *term) *term {
+	b := cloneTerm(a)
+	b.Sel.MatchLabels = copySet(a.Sel.MatchLabels)
+	b.Sel.Exprs = nil
+	for _, r := range a.Sel.Exprs {
+		b.Sel.Exprs = append(b.Sel.Exprs, selReq{Key: r.Key, Op: r.Op, Values: append([]string(nil), r.Values...)})
+	}
+	if len(b.Sel.Exprs) > 0 {
+		i := rapid.IntRange(0, len(b.Sel.Exprs)-1).Draw(t, "req")
+		r := &b.Sel.Exprs[i]
+		switch rapid.IntRange(0, 5).Draw(t, "how") {
+		case 0: // add a value
+			if r.Op == "In" || r.Op == "NotIn" {
+				r.Values = append(r.Values, rapid.SampledFrom(uniValues).Draw(t, "v"))
+			}
+		case 1: // remove a value (keep at least one)
+			if len(r.Values) > 1 {
+				j := rapid.IntRange(0, len(r.Values)-1).Draw(t, "j")
+				r.Values = append(append([]string(nil), r.Values[:j]...), r.Values[j+1:]...)
+			}
+		case 2: // permute the values
+			if len(r.Values) > 1 {
+				r.Values = rapid.Permutation(r.Values).Draw(t, "perm")
+			}
+		case 3: // flip the operator within its arity
+			switch r.Op {
+			case "In":
+				r.Op = "NotIn"
+			case "NotIn":
+				r.Op = "In"
+			case "Exists":
+				r.Op = "DoesNotExist"
+			case "DoesNotExist":
+				r.Op = "Exists"
+			}
+		case 4: // drop the requirement
+			b.Sel.Exprs = append(b.Sel.Exprs[:i], b.Sel.Exprs[i+1:]...)
+		case 5: // another key
+			r.Key = rapid.SampledFrom(uniKeys).Draw(t, "k")
+		}
+		return b
+	}
+	if b.Sel.MatchLabels == nil {
+		b.Sel.MatchLabels = map[string]string{}
+	}
+	k := rapid.SampledFrom(uniKeys).Draw(t, "k")
+	if _, ok := b.Sel.MatchLabels[k]; ok && rapid.Bool().Draw(t, "del") {
+		delete(b.Sel.MatchLabels, k)
+	} else {
+		b.Sel.MatchLabels[k] = rapid.SampledFrom(uniValues).Draw(t, "v")
+	}
+	return b
 }
